@@ -13,6 +13,7 @@ import NitroVerif.Lemmas.TsSemSound
 import NitroVerif.Lemmas.JsDoc
 import NitroVerif.Lemmas.DeclsResolve
 import NitroVerif.Lemmas.SchemaDeclsResolve
+import NitroVerif.Lemmas.DeclsClosedBodies
 namespace NitroVerif.Props.C10
 open NitroVerif.ResolverDecls
 open NitroVerif.Gql NitroVerif.Ts NitroVerif.DeclCfg NitroVerif.SchemaDecls NitroVerif.RefTypes
@@ -25,107 +26,53 @@ theorem membership_procedure_sound (scope : Scope) (n : Nat) (v : J) (t : Ty)
     (h : memFuel e scope n v t = true) : Mem e v (globalise e.decls scope [] t) :=
   memFuel_sound scope n v t h
 
-/-! ### the wrapper lemma -/
+/-! ### the wrapper lemma
+
+(The proofs of this section and of the per-kind exactness statements live in `Lemmas/DeclsClosedBodies.lean`, where the
+closed-form lemmas can use them.) -/
 
 /-- non-null part: a value belongs to the TypeScript type emitted for the non-null part of a GraphQL type
     position iff it has the list / element structure of that position (all nesting depths). -/
 theorem ts_core_conf (leaf : Name → Ty) (ro : Bool) (ty : GType) :
-    ∀ v, Mem e v (tsCore leaf ro ty) ↔ ConfCore (fun n x => Mem e x (leaf n)) ty v := by
-  induction ty with
-  | named n p => intro v; simp [tsCore, ConfCore]
-  | nonNull t ih => intro v; simpa [tsCore, ConfCore] using ih v
-  | list t p ih =>
-    intro v
-    have hel : ∀ x, Mem e x (if t.isNonNull then tsCore leaf ro t else .union [tsCore leaf ro t, .prim "null"])
-        ↔ ((t.isNonNull = false ∧ x = .null) ∨ ConfCore (fun n x => Mem e x (leaf n)) t x) := by
-      intro x
-      cases hnn : t.isNonNull with
-      | true => simp [ih x]
-      | false =>
-        simp only [Bool.false_eq_true, if_false, mem_union_iff, List.mem_cons, List.mem_nil_iff, or_false]
-        constructor
-        · rintro ⟨t', ht', hm⟩
-          rcases ht' with rfl | rfl
-          · exact Or.inr ((ih x).1 hm)
-          · exact Or.inl ⟨trivial, mem_null_iff.1 hm⟩
-        · rintro (⟨_, hx⟩ | hc)
-          · exact ⟨_, Or.inr rfl, mem_null_iff.2 hx⟩
-          · exact ⟨_, Or.inl rfl, (ih x).2 hc⟩
-    cases ro with
-    | true =>
-      simp only [tsCore, if_true, mem_roArr_iff, ConfCore]
-      constructor
-      · rintro ⟨xs, rfl, h⟩; exact ⟨xs, rfl, fun x hx => (hel x).1 (h x hx)⟩
-      · rintro ⟨xs, rfl, h⟩; exact ⟨xs, rfl, fun x hx => (hel x).2 (h x hx)⟩
-    | false =>
-      simp only [tsCore, Bool.false_eq_true, if_false, mem_arr_iff, ConfCore]
-      constructor
-      · rintro ⟨xs, rfl, h⟩; exact ⟨xs, rfl, fun x hx => (hel x).1 (h x hx)⟩
-      · rintro ⟨xs, rfl, h⟩; exact ⟨xs, rfl, fun x hx => (hel x).2 (h x hx)⟩
+    ∀ v, Mem e v (tsCore leaf ro ty) ↔ ConfCore (fun n x => Mem e x (leaf n)) ty v :=
+  mem_tsCore_iff leaf ro ty
 
 /-- THE WRAPPER LEMMA. For every GraphQL type position (any nesting of `[…]` and `!`), the values of the emitted
     TypeScript type `get_ts_type_of_type(ty)` are exactly: `null` iff the position is nullable, otherwise arrays
     of conforming elements / the named type's values — whatever the named types denote (`leaf`), for mutable and
     readonly arrays alike. -/
 theorem ts_conf (leaf : Name → Ty) (ro : Bool) (ty : GType) (v : J) :
-    Mem e v (tsOf leaf ro ty) ↔ Conf (fun n x => Mem e x (leaf n)) ty v := by
-  unfold tsOf Conf
-  cases hnn : ty.isNonNull with
-  | true => simp [ts_core_conf]
-  | false =>
-    simp only [Bool.false_eq_true, if_false, mem_union_iff, List.mem_cons, List.mem_nil_iff, or_false, true_and]
-    constructor
-    · rintro ⟨t', ht', hm⟩
-      rcases ht' with rfl | rfl
-      · exact Or.inr ((ts_core_conf leaf ro ty v).1 hm)
-      · exact Or.inl (mem_null_iff.1 hm)
-    · rintro (hx | hc)
-      · exact ⟨_, Or.inr rfl, mem_null_iff.2 hx⟩
-      · exact ⟨_, Or.inl rfl, (ts_core_conf leaf ro ty v).2 hc⟩
+    Mem e v (tsOf leaf ro ty) ↔ Conf (fun n x => Mem e x (leaf n)) ty v :=
+  mem_tsOf_iff leaf ro ty v
 
 
 /-! ### alias exactness, per kind
 
 The alias bodies refer to other schema types through a leaf function `L` (the model uses `Ctx.leaf`: a reference
 to the type's LOCAL name). Exactness of a body is proved for EVERY interpretation of those references: if the
-reference to each named type `n` denotes the set `R n` (hypothesis `hL`; this is what name resolution must
-deliver, see `C10_rename_sound_partial` and the OPEN block below), then the body of an enum / object / input
-object / interface / union alias denotes exactly what the statement says, with `R` at the leaves. -/
+reference to each named type `n` denotes the set `R n` (hypothesis `hL`), then the body of an enum / object / input
+object / interface / union alias denotes exactly what the statement says, with `R` at the leaves. The closed forms
+below (`C10_alias_exact_closed` …) discharge `hL` on the generated file itself. -/
 
 /-- `ts_union` / the printed form of `TSType::Union`: membership is membership in some member. -/
-theorem tsUnion_mem (ts : List Ty) (v : J) : Mem e v (tsUnion ts) ↔ ∃ t ∈ ts, Mem e v t := by
-  match ts with
-  | [] => simp [tsUnion, mem_never_iff]
-  | [t] => simp [tsUnion]
-  | a :: b :: r => simp only [tsUnion, mem_union_iff]
+theorem tsUnion_mem (ts : List Ty) (v : J) : Mem e v (tsUnion ts) ↔ ∃ t ∈ ts, Mem e v t :=
+  mem_tsUnion_iff ts v
 
 /-- ENUMS: the alias of an enum type admits exactly the string literals of its values. -/
 theorem C10_alias_exact_enum (td : TypeDef) (v : J) :
-    Mem e v (enumBody td) ↔ ∃ x ∈ td.values, v = .str x.name := by
-  simp only [enumBody, tsUnion_mem]
-  constructor
-  · rintro ⟨t, ht, hm⟩
-    obtain ⟨x, hx, rfl⟩ := List.mem_map.1 ht
-    exact ⟨x, hx, mem_strLit_iff.1 hm⟩
-  · rintro ⟨x, hx, rfl⟩
-    exact ⟨_, List.mem_map.2 ⟨x, hx, rfl⟩, mem_strLit_iff.2 rfl⟩
+    Mem e v (enumBody td) ↔ ∃ x ∈ td.values, v = .str x.name :=
+  mem_enumBody_iff td v
 
 /-- INTERFACES and UNIONS: the alias admits exactly the union of what the references to the listed possible
     object types admit (`names` = `interface_implementers` resp. the union's members). -/
 theorem C10_alias_exact_members (L : Name → Ty) (R : Name → J → Prop) (hL : ∀ n v, Mem e v (L n) ↔ R n v)
     (names : List Name) (v : J) :
-    Mem e v (membersBodyL L names) ↔ ∃ n ∈ names, R n v := by
-  simp only [membersBodyL, tsUnion_mem]
-  constructor
-  · rintro ⟨t, ht, hm⟩
-    obtain ⟨n, hn, rfl⟩ := List.mem_map.1 ht
-    exact ⟨n, hn, (hL n v).1 hm⟩
-  · rintro ⟨n, hn, hr⟩
-    exact ⟨_, List.mem_map.2 ⟨n, hn, rfl⟩, (hL n v).2 hr⟩
+    Mem e v (membersBodyL L names) ↔ ∃ n ∈ names, R n v :=
+  mem_membersBodyL_iff L R hL names v
 
 theorem leaf_ext (L : Name → Ty) (R : Name → J → Prop) (hL : ∀ n v, Mem e v (L n) ↔ R n v) :
-    (fun n x => Mem e x (L n)) = R := by
-  funext n x; exact propext (hL n x)
+    (fun n x => Mem e x (L n)) = R :=
+  leaf_ext_iff L R hL
 
 /-- OBJECTS: the alias admits exactly the records with `__typename` = the type's name and, for EVERY field, a
     value conforming wrapper-exactly to the field's type; no other key; no field may be omitted. -/
@@ -134,88 +81,21 @@ theorem C10_alias_exact_object (L : Name → Ty) (R : Name → J → Prop) (hL :
     Mem e v (objectBodyL L td) ↔
       ∃ kvs, v = .obj kvs ∧
         RecordSpec (("__typename", false, fun x => x = .str td.name)
-          :: td.fields.map fun f => (f.name, false, Conf R f.ty)) kvs := by
-  have hR := leaf_ext L R hL
-  simp only [objectBodyL, mem_obj_iff, RecordP, RecordSpec]
-  constructor
-  · rintro ⟨kvs, rfl, h1, h2⟩
-    refine ⟨kvs, rfl, ?_, ?_⟩
-    · intro f hf
-      rcases List.mem_cons.1 hf with rfl | hf
-      · right
-        have := h1 ("__typename", false, false, .strLit td.name) List.mem_cons_self (by simp)
-        exact mem_strLit_iff.1 this
-      · obtain ⟨g, hg, rfl⟩ := List.mem_map.1 hf
-        right
-        have := h1 (g.name, false, false, tsOf L false g.ty)
-          (List.mem_cons_of_mem _ (List.mem_map.2 ⟨g, hg, rfl⟩)) (by simp)
-        rw [← hR]; exact (ts_conf L false g.ty _).1 this
-    · intro kv hkv
-      rcases h2 kv hkv with h | ⟨f, hf, hk⟩
-      · exact Or.inl h
-      · right
-        rcases List.mem_cons.1 hf with rfl | hf
-        · exact ⟨_, List.mem_cons_self, hk⟩
-        · obtain ⟨g, hg, rfl⟩ := List.mem_map.1 hf
-          exact ⟨(g.name, false, Conf R g.ty), List.mem_cons_of_mem _ (List.mem_map.2 ⟨g, hg, rfl⟩), hk⟩
-  · rintro ⟨kvs, rfl, h1, h2⟩
-    refine ⟨kvs, rfl, ?_, ?_⟩
-    · intro f hf _
-      rcases List.mem_cons.1 hf with rfl | hf
-      · rcases h1 _ List.mem_cons_self with ⟨h, _⟩ | h
-        · cases h
-        · exact mem_strLit_iff.2 h
-      · obtain ⟨g, hg, rfl⟩ := List.mem_map.1 hf
-        rcases h1 (g.name, false, Conf R g.ty) (List.mem_cons_of_mem _ (List.mem_map.2 ⟨g, hg, rfl⟩)) with ⟨h, _⟩ | h
-        · cases h
-        · rw [← hR] at h; exact (ts_conf L false g.ty _).2 h
-    · intro kv hkv
-      rcases h2 kv hkv with h | ⟨f, hf, hk⟩
-      · exact Or.inl h
-      · right
-        rcases List.mem_cons.1 hf with rfl | hf
-        · exact ⟨_, List.mem_cons_self, hk⟩
-        · obtain ⟨g, hg, rfl⟩ := List.mem_map.1 hf
-          exact ⟨(g.name, false, false, tsOf L false g.ty), List.mem_cons_of_mem _ (List.mem_map.2 ⟨g, hg, rfl⟩), hk⟩
+          :: td.fields.map fun f => (f.name, false, Conf R f.ty)) kvs :=
+  mem_objectBodyL_iff L R hL td v
 
 /-- a possibly-optional input position: (optional and omitted) or a member of the emitted type ⇔
     (optional and omitted) or conforming -/
 theorem optField_exact (L : Name → Ty) (R : Name → J → Prop) (hL : ∀ n v, Mem e v (L n) ↔ R n v)
     (ro o : Bool) (ty : GType) (ho : o = true → ty.isNonNull = false) (x : J) :
-    (¬ (o = true ∧ x = .absent) → Mem e x (optFieldTy L ro o ty)) ↔ ((o = true ∧ x = .absent) ∨ Conf R ty x) := by
-  have hR := leaf_ext L R hL
-  simp only [optFieldTy]
-  cases o with
-  | false =>
-    simp only [Bool.false_eq_true, false_and, not_false_eq_true, forall_const, if_false, false_or]
-    rw [← hR]; exact ts_conf L ro ty x
-  | true =>
-    have hnn : ty.isNonNull = false := ho rfl
-    simp only [true_and, if_true]
-    rw [← hR]
-    constructor
-    · intro h
-      by_cases hx : x = .absent
-      · exact Or.inl hx
-      · right
-        obtain ⟨t, ht, hm⟩ := mem_union_iff.1 (h hx)
-        simp only [List.mem_cons, List.mem_nil_iff, or_false] at ht
-        rcases ht with rfl | rfl | rfl
-        · exact Or.inr ((ts_core_conf L ro ty x).1 hm)
-        · exact Or.inl ⟨hnn, mem_null_iff.1 hm⟩
-        · exact absurd (mem_undefined_iff.1 hm) hx
-    · rintro (hx | hc) hne
-      · exact absurd hx hne
-      · rcases hc with ⟨_, hx⟩ | hc
-        · exact mem_union_iff.2 ⟨_, by simp, mem_null_iff.2 hx⟩
-        · exact mem_union_iff.2 ⟨_, List.mem_cons_self, (ts_core_conf L ro ty x).2 hc⟩
+    (¬ (o = true ∧ x = .absent) → Mem e x (optFieldTy L ro o ty)) ↔ ((o = true ∧ x = .absent) ∨ Conf R ty x) :=
+  mem_optField_iff L R hL ro o ty ho x
 
 theorem inputField_exact (L : Name → Ty) (R : Name → J → Prop) (hL : ∀ n v, Mem e v (L n) ↔ R n v)
     (opt : Bool) (f : InputValueDef) (x : J) :
     (¬ ((inputFieldL L opt f).2.2.1 = true ∧ x = .absent) → Mem e x (inputFieldL L opt f).2.2.2) ↔
-      (((opt && !f.ty.isNonNull) = true ∧ x = .absent) ∨ Conf R f.ty x) := by
-  simp only [inputFieldL]
-  exact optField_exact L R hL true _ f.ty (by cases h : f.ty.isNonNull <;> simp_all) x
+      (((opt && !f.ty.isNonNull) = true ∧ x = .absent) ∨ Conf R f.ty x) :=
+  mem_inputField_iff L R hL opt f x
 
 /-- INPUT OBJECTS: the alias admits exactly the records with a conforming value for every field, where a field
     may be omitted iff its type is nullable AND `allowUndefinedAsOptionalInput` is on; no other key. -/
@@ -223,31 +103,8 @@ theorem C10_alias_exact_input (L : Name → Ty) (R : Name → J → Prop) (hL : 
     (opt : Bool) (td : TypeDef) (v : J) :
     Mem e v (inputBodyL L opt td) ↔
       ∃ kvs, v = .obj kvs ∧
-        RecordSpec (td.inputs.map fun f => (f.name, opt && !f.ty.isNonNull, Conf R f.ty)) kvs := by
-  simp only [inputBodyL, mem_obj_iff, RecordP, RecordSpec]
-  constructor
-  · rintro ⟨kvs, rfl, h1, h2⟩
-    refine ⟨kvs, rfl, ?_, ?_⟩
-    · intro f hf
-      obtain ⟨g, hg, rfl⟩ := List.mem_map.1 hf
-      have := h1 (inputFieldL L opt g) (List.mem_map.2 ⟨g, hg, rfl⟩)
-      exact (inputField_exact L R hL opt g _).1 this
-    · intro kv hkv
-      rcases h2 kv hkv with h | ⟨f, hf, hk⟩
-      · exact Or.inl h
-      · obtain ⟨g, hg, rfl⟩ := List.mem_map.1 hf
-        exact Or.inr ⟨_, List.mem_map.2 ⟨g, hg, rfl⟩, hk⟩
-  · rintro ⟨kvs, rfl, h1, h2⟩
-    refine ⟨kvs, rfl, ?_, ?_⟩
-    · intro f hf
-      obtain ⟨g, hg, rfl⟩ := List.mem_map.1 hf
-      have := h1 (g.name, opt && !g.ty.isNonNull, Conf R g.ty) (List.mem_map.2 ⟨g, hg, rfl⟩)
-      exact (inputField_exact L R hL opt g _).2 this
-    · intro kv hkv
-      rcases h2 kv hkv with h | ⟨f, hf, hk⟩
-      · exact Or.inl h
-      · obtain ⟨g, hg, rfl⟩ := List.mem_map.1 hf
-        exact Or.inr ⟨_, List.mem_map.2 ⟨g, hg, rfl⟩, hk⟩
+        RecordSpec (td.inputs.map fun f => (f.name, opt && !f.ty.isNonNull, Conf R f.ty)) kvs :=
+  mem_inputBodyL_iff L R hL opt td v
 
 example : ∃ v, Mem Env.empty v (inputBodyL (fun n => .ref n) true
     { kind := .input, name := "In", inputs := [{ name := "x", ty := .list (.named "Int" {}) {} }] }) :=
